@@ -43,6 +43,9 @@ pub enum Op {
     /// a client encrypts a file for upload now and announces it with a later SendMsg of its own
     /// (the upload takes time: commits may be applied in between)
     MediaEncrypt { g: usize, tag: u32 },
+    /// the author sends a rumor it has sent before once more (an application-level resend: same
+    /// rumor, same id, a new wrapper in the epoch the author stands in now)
+    ResendMsg { msg: EvRef },
     /// key-package hygiene: the client deletes the private parts of every key package it has
     /// published so far and publishes a fresh one
     RotateKeyPackages,
@@ -849,6 +852,28 @@ impl World {
                 Ok(ev) => Outcome::new("ok", format!("kp {}", &ev.id.to_hex()[..8])),
                 Err(e) => Outcome::new("err", e),
             },
+            Op::ResendMsg { msg } => {
+                let Some(l) = self.ledger.iter().find(|l| l.origin == *msg).cloned() else { return Outcome::new("skipped", "no such message") };
+                if l.author != node {
+                    return Outcome::new("skipped", "not the author");
+                }
+                let Some(gid) = self.gid(l.g) else { return Outcome::new("skipped", "no group") };
+                let tags: Vec<Tag> = serde_json::from_str::<Vec<Vec<String>>>(&l.tags).ok().map(|v| v.into_iter().filter_map(|t| Tag::parse(t).ok()).collect()).unwrap_or_default();
+                let rumor = EventBuilder::new(Kind::Custom(l.kind), l.content.clone()).tags(tags).custom_created_at(Timestamp::from(l.created_at)).build(self.nodes[node].pubkey());
+                let r = with_mdk!(self.nodes[node].mdk(), m => m.create_message(&gid, rumor));
+                match r {
+                    Ok(ev) => {
+                        let (epoch, st) = pre_state.get(&l.g).cloned().unwrap_or((0, String::new()));
+                        let origin = EvRef(step.id, 0);
+                        self.publish_event(PubEvent { origin, event: ev, kind: EvKind::App, creator: node, g: l.g, epoch, parent_state: st, result_state: None, desc: format!("resend of {:?}", msg), msg: None, refs_proposals: false });
+                        self.probe("message_sent_again_by_its_author");
+                        let mut o = Outcome::new("ok", "message sent again");
+                        o.created = vec![origin];
+                        o
+                    }
+                    Err(e) => Outcome::new("err", format!("Err({e})")),
+                }
+            }
             Op::RotateKeyPackages => {
                 let evs = self.nodes[node].key_packages.clone();
                 let mut deleted = 0usize;
